@@ -38,6 +38,10 @@ CLAIMS = {
          "Per-node contracts that carry the statement for a cluster of any size. caches.purge/Purge/PurgeLocal: a purge discards the cache; a purge that originates on the node fires the broadcast hook exactly once (whether or not the cache existed locally) with the id of the cache purged; a purge applied on behalf of a peer (PurgeLocal) never fires it. cluster.ListActiveMembers is the filter of the member list (inductive invariant: every member returned is active and is not this node, and the number returned equals the number of active peers seen, each one appended being the member under the cursor). cluster.BroadcastCacheFlush calls SendCacheFlush exactly once per peer found, with that peer, the cache id it was given and the origin hop count (loop invariant: calls == peers visited; no early exit). cluster.SendCacheFlush issues at most one request, to the URL built from the peer's scheme/host/port, naming the cache and hop count it was given. cluster.FlushCacheHandler, on every path, fires no hook, calls no SendCacheFlush and issues no request, and on the accepted path the cache named in the request is gone when it returns.",
          "From the per-node contracts: one Purge on one node causes exactly one hook firing, hence one SendCacheFlush and at most one request per active peer (bounded by the number of peers), and a receiving node sends nothing (zero secondary messages), for any number of nodes and any sequence of purges — by induction over the sequence; that composition is an argument in DESIGN.md, not a machine-checked lemma. Message delays and drops are outside the contracts (a dropped request is a peer not reached; the statement's 'at least once' is decided as 'asked exactly once'). The spawned `go OnPurge(id)` is counted at the go statement; its body is BroadcastCacheFlush by cluster.Initialize's assignment (trusted). Trusted: database/sql for the member list, net/http. Sequential semantics.",
          "§7 C29"),
+ "C39": ("proof",
+         "assets.AssetsHandler, Loader, readAssetRange, readAssetFile and normalizeAssetPath are under contract in safe mode: every index into the split Range header, every slice and the read buffer's make are in bounds / non-negative for every Range header and every file size (no bound on either); readAssetRange returns exactly min(end, size-1)-start+1 bytes and refuses a start at or beyond the end of the file; Loader reports the real total size on every path (cache hit included); at the point the 206 reply's Content-Range is built, its triple is (start, start+len(body)-1, total) and the last byte lies inside the file. Every file-system call of the package (os.Stat, os.Open, os.ReadFile; a table obligation lists every use of os/ioutil/filepath in the package) receives a path for which normalizeAssetPath established that it starts with the asset root plus a separator, or is the fixed refusal name. The asset cache is under contract with a package invariant (every entry holds the bytes produced for the asset its key names) and normalizeCachePath maps a request path to a key that names the same asset (the path itself, with a leading slash supplied), so a hit returns the named asset's bytes and nothing else.",
+         "One recorded finding (known_findings.txt): a byte range of a Markdown asset is rendered after the cut, so body and Content-Range disagree. Not covered: symbolic links inside the asset root (confinement is lexical, as in the code), files changing on disk between Stat and read, the content of minification and Markdown rendering themselves (C33/C34), multi-range requests (refused by the handler as malformed; proved not to crash). Trusted: ReadAt fills the buffer inside the file, filepath.Clean/Join as functions, strings.Split yields at least one piece.",
+         "§7 C39"),
  "C43": ("proof",
          "Every SQL statement the row endpoints issue (db.Exec/db.Query in ReadRows/readRowData, InsertRows/insertRowSet, UpdateRows/updateRowSet, DeleteRows and the abstract-row variants) is a guarded sink: on every path reaching it the caller is an administrator, or the DSN is unrestricted, or tables.Authorized returned true for this user, this dsn.table and the permission of this operation (read/update/delete) on this call, and the database handle belongs to the DSN the request names (also when it comes from a pending transaction id: GetDatabase ensures result.DSN == dsnName). tables.Authorized is under a functional contract: it answers true only if the permissions store returned exactly one grant row selected by filters binding dsn, table and user, and that row grants every requested operation (inductive invariant over the operation loop). database.Open is under contract for the DSN-level gate (a restricted DSN opens only for a caller whose identity or DSN grant authorizes the action); TableCreate/DeleteTable ask for the admin action.",
          "Trusted: the resources handle (Read with Equals filters returns the rows matching the filters), dsns.DSNService.AuthDSN/ReadDSN as the DSN grant store, parsing.FullName, the SQL text builders (C14/C16 not claimed: the statement touches the table named in the URL). Sequential semantics; the permission row read is a snapshot (a concurrent revoke is outside the model).",
